@@ -184,6 +184,38 @@ def job(j):
                         now = labmod._slurp(paths0[l][idx]) if os.path.exists(paths0[l][idx]) else b""
                         if rf2.rc != 0 or chk.rc != 0 or now[:recl[idx]] != bytes0[l][idx][:recl[idx]]:
                             v.append(dict(kind="split-not-rebuilt-once-the-room-is-back", where=w5, rc=(rf2.rc, chk.rc), size_now=len(now), recorded=recl[idx]))
+                # a fixed-size (non-last) split loses its TAIL (one block): commands that only read the parity (check) still map every
+                # position through the recorded sizes - exactly the stripe of the lost block is reported for that level, nothing in
+                # the later splits - and a plain fix puts the block back
+                for l in range(levels):
+                    recl = rec[l] if rec[l] is not None else None
+                    if recl is None or len(paths0[l]) < 2:
+                        continue
+                    lastused = max([i for i, s_ in enumerate(recl) if s_] or [0])
+                    for idx in range(lastused):
+                        if recl[idx] < c.block_size:
+                            continue
+                        Ls.restore(S0)
+                        with open(paths0[l][idx], "r+b") as fh:
+                            fh.truncate(recl[idx] - c.block_size)
+                        lost_pos = sum(recl[:idx + 1]) // c.block_size - 1
+                        rc_ = Ls.run("check")
+                        w6 = where + " | split %d of level %d lost its last block (stripe %d), check" % (idx, l, lost_pos)
+                        steps += 1
+                        names = {n: i for i, n in enumerate(labmod.LEVEL_NAMES)}
+                        got = set()
+                        for t in rc_.tags.get("parity_error"):
+                            if len(t) >= 3 and t[1].isdigit():
+                                got.add((int(t[1]), names.get(t[2].decode(), t[2].decode())))
+                        derr = [t for t in rc_.tags.get("error") if len(t) >= 4 and t[1].isdigit()]
+                        if got != {(lost_pos, l)} or derr or rc_.rc == 0:
+                            v.append(dict(kind="split-tail-lost-check-reports-other-stripes", where=w6, want=[(lost_pos, l)], got=sorted(got)[:8],
+                                          data_errors=len(derr), rc=rc_.rc))
+                        rf = Ls.run("fix")
+                        chk = Ls.run("check")
+                        now = labmod._slurp(paths0[l][idx])
+                        if rf.rc != 0 or chk.rc != 0 or now[:recl[idx]] != bytes0[l][idx][:recl[idx]]:
+                            v.append(dict(kind="split-tail-not-rebuilt", where=w6, rc=(rf.rc, chk.rc), size_now=len(now), recorded=recl[idx]))
                 # the whole parity disk (directory) holding one split is gone, together with a data disk: with a second level fix
                 # --force-device must drop the dead level and rebuild the data from the other one; once the directory is back a plain
                 # fix re-creates the split in place
